@@ -6,3 +6,4 @@ INVARIANT C10_Target
 INVARIANT C10_Distance
 INVARIANT C10_Nothing
 INVARIANT C10_NoPanic
+INVARIANT C10_Probed
